@@ -1,6 +1,7 @@
 package main
 
 import (
+	"os"
 	"fmt"
 	"go/token"
 	"go/types"
@@ -161,14 +162,31 @@ func (x *FnExec) mergeStates(hint string, exits []*exitInfo) *State {
 		if srt == "" {
 			continue
 		}
-		m := x.q.freshConst("m_"+k, srt)
-		for i, t := range terms {
-			if t == "" {
+		if os.Getenv("TVC_MERGE_EQ") != "" || x.q.mode == ModeBV { // bit-vector proofs (C14) run several times faster with equations
+			m := x.q.freshConst("m_"+k, srt)
+			for i, t := range terms {
+				if t == "" {
+					continue
+				}
+				x.q.assert(implies(conds[i], eq(m, t)))
+			}
+			st.heap[k] = m
+			continue
+		}
+		// the merged heap is the heap of the path taken: a conditional term, not an equation between heaps (equations
+		// between arrays cost the solver extensionality reasoning)
+		var mt string
+		for i := len(terms) - 1; i >= 0; i-- {
+			if terms[i] == "" {
 				continue
 			}
-			x.q.assert(implies(conds[i], eq(m, t)))
+			if mt == "" {
+				mt = terms[i]
+			} else if terms[i] != mt {
+				mt = ite(conds[i], terms[i], mt)
+			}
 		}
-		st.heap[k] = m
+		st.heap[k] = x.q.define("m_"+k, srt, mt)
 	}
 	return st
 }
@@ -459,6 +477,20 @@ func (x *FnExec) cutLoop(fr *frame, n *node, li *loopInfo) {
 		n.env[p] = x.havocVal(fr.tag+"_"+p.Name(), p.Type(), n.reach)
 	}
 	allocAtHeader := x.heapGet(n.st, "$alloc", "(Array Ref Bool)")
+	// earlier iterations may have allocated: at the header the allocation set is an arbitrary superset of the one before
+	// the loop, and every reference carried around the loop points into it
+	if os.Getenv("TVC_NO_LOOPALLOC") == "" {
+		x.heapHavoc(n.st, "$alloc")
+		allocH := n.st.heap["$alloc"]
+		x.q.fresh["qv_la"]++
+		r := fmt.Sprintf("|r?la%d|", x.q.fresh["qv_la"])
+		x.q.assert(fmt.Sprintf("(forall ((%s Ref)) (! (=> (select %s %s) (select %s %s)) :pattern ((select %s %s)) :pattern ((select %s %s))))", r, allocAtHeader, r, allocH, r, allocAtHeader, r, allocH, r))
+		for _, p := range phis {
+			if v := n.env[p]; v.S != "" && len(v.Tuple) == 0 {
+				x.assumeAllocT(n.st, n.reach, v.S, p.Type(), 1)
+			}
+		}
+	}
 	for _, h := range x.loopWriteSet(fr, li) {
 		if _, ok := x.q.heaps[h]; ok {
 			before := x.heapGet(n.st, h, x.q.heaps[h])
